@@ -59,6 +59,8 @@ type trace struct {
 	Roots []string `json:"roots"`
 	Err   string   `json:"err,omitempty"`
 	Read  string   `json:"read,omitempty"` // first read-back (Get after reopen) that differs from the map
+	Leak  string   `json:"leak,omitempty"` // first dropped update that left a trace in the database
+	DRoots []string `json:"-"`             // roots computed by the dropped updates ("" = none)
 }
 
 type getter interface {
